@@ -114,7 +114,11 @@ func loadRepo(dir, goarch string, overlays map[string]string) (*Prog, error) {
 	seen := map[*ssa.Function]bool{}
 	var add func(sp string, fn *ssa.Function)
 	add = func(sp string, fn *ssa.Function) {
-		if fn == nil || seen[fn] || fn.Synthetic != "" || fn.Blocks == nil {
+		if fn == nil || seen[fn] || fn.Blocks == nil {
+			return
+		}
+		// range-over-func loop bodies are source code although go/ssa marks them synthetic
+		if fn.Synthetic != "" && !strings.HasPrefix(fn.Synthetic, "range-over-func") {
 			return
 		}
 		seen[fn] = true
